@@ -68,25 +68,25 @@ pub struct Case {
 const SCRATCH: usize = 1 << 23;
 
 impl Case {
-    fn n(&self) -> usize {
+    pub fn n(&self) -> usize {
         1 << self.log_n
     }
-    fn al(&self) -> Lay {
+    pub fn al(&self) -> Lay {
         Lay { b: self.b as usize, size: self.sa as usize }
     }
-    fn bl(&self) -> Lay {
+    pub fn bl(&self) -> Lay {
         Lay { b: self.b as usize, size: self.sb as usize }
     }
-    fn rl(&self) -> Lay {
+    pub fn rl(&self) -> Lay {
         Lay { b: self.rb as usize, size: self.rsize as usize }
     }
-    fn ak(&self) -> usize {
+    pub fn ak(&self) -> usize {
         self.al().bits() - self.arem as usize
     }
-    fn bk(&self) -> usize {
+    pub fn bk(&self) -> usize {
         self.bl().bits() - self.brem as usize
     }
-    fn cnv_offset(&self) -> usize {
+    pub fn cnv_offset(&self) -> usize {
         let b = self.b as usize;
         let max = (self.sa as usize + self.sb as usize) * b - 1;
         let o = self.off as usize;
@@ -94,7 +94,7 @@ impl Case {
         let v = if o & 1 == 0 { ((o >> 1) % (self.sa as usize + self.sb as usize)) * b } else { (o >> 1) * 7 + (o >> 5) };
         v % (max + 1)
     }
-    fn key_size(&self) -> usize {
+    pub fn key_size(&self) -> usize {
         (self.dnum * self.dsize + self.extra) as usize
     }
 }
@@ -432,9 +432,9 @@ fn run_tensor<B: FullBackend>(m: &Module<B>, c: &Case) -> Verdict {
 // ------------------------------------------------------------------------------------------
 // 3. glwe_tensor_relinearize
 
-type TkP<B> = GLWETensorKeyPrepared<DeviceBuf<B>, B>;
+pub type TkP<B> = GLWETensorKeyPrepared<DeviceBuf<B>, B>;
 
-fn build_tk<B: FullBackend>(m: &Module<B>, c: &Case, sk: &GLWESecret<Vec<u8>>, scratch: &mut ScratchOwned<B>) -> Result<(TkP<B>, KeyMeta), String> {
+pub fn build_tk<B: FullBackend>(m: &Module<B>, c: &Case, sk: &GLWESecret<Vec<u8>>, scratch: &mut ScratchOwned<B>) -> Result<(TkP<B>, KeyMeta), String> {
     let n = m.n();
     let r = c.rank as usize;
     let k = c.key_size() * c.kb as usize;
@@ -579,9 +579,9 @@ pub fn strategy() -> BoxedStrategy<Case> {
 
 pub fn run_all(ctx: &Ctx) {
     let t = ctx.tier;
-    ctx.run_sub("mul_const_plain", t.pick(4_000, 80_000), 64, strategy, test_lin);
-    ctx.run_sub("tensor", t.pick(3_000, 60_000), 64, strategy, test_tensor);
-    ctx.run_sub("relinearize", t.pick(2_000, 40_000), 64, strategy, test_relin);
+    ctx.run_sub("mul_const_plain", t.pick(12_000, 300_000), 64, strategy, test_lin);
+    ctx.run_sub("tensor", t.pick(10_000, 250_000), 64, strategy, test_tensor);
+    ctx.run_sub("relinearize", t.pick(6_000, 150_000), 64, strategy, test_relin);
 }
 
 pub fn replay(ctx: &Ctx, sub: &str, case: &serde_json::Value) -> i32 {
